@@ -78,6 +78,9 @@ func genC09(tier string, seed uint64, emit func(string)) {
 	if tier == "thorough" {
 		n = 100000
 	}
+	// extension profiles encode through the embedding-aware serialiser: its output for set-but-zero
+	// optional claims is part of "decode(encode(x)) = x" for them
+	genSerLines(r, n/40, false, emit)
 	for kind := 1; kind <= 2; kind++ {
 		for i := 0; i < n; i++ {
 			emit("RT " + validClaims(kind, r).String())
